@@ -17,25 +17,36 @@ Open Scope Z_scope.
 (* ------------------------------------------------------------------------------------------ *)
 (* numeric laws                                                                                 *)
 (* ------------------------------------------------------------------------------------------ *)
-(* z is a source coordinate, d the grid spacing along the same axis, n the number of cells:
+(* z is a source coordinate, d the grid spacing along the same axis, n the number of cells along it:
    - the source cell index int(z / d) is not negative;
-   - when the source is snapped to a node, int(np.round(z / d)) is a node index (0 .. n). *)
-Class TruncLaws (T : Type) `{Num T} : Prop := {
+     (class TruncDivLaw: all the 3D solver needs; proved below for the reals and for binary64)
+   - when the source is snapped to a node, int(np.round(z / d)) is a node index (0 .. n), provided the cell count n is
+     one the numeric type represents exactly (`cells_ok n`: every n for the reals; for binary64 the law fails for
+     n = 2^53 + 3, see `trunc_round_div_range_F_needs_bound` at the end of this file, so cells_ok has to bound n). *)
+Class TruncDivLaw (T : Type) `{Num T} : Prop := {
   trunc_div_nonneg : forall z d : T,
-    nleb (nofZ 0) z = true -> nltb (nofZ 0) d = true -> 0 <= ntrunc (ndiv z d);
+    nleb (nofZ 0) z = true -> nltb (nofZ 0) d = true -> 0 <= ntrunc (ndiv z d) }.
+Class TruncLaws (T : Type) `{Num T} := {
+  trunc_div_law : TruncDivLaw T;
+  cells_ok : Z -> Prop;
   trunc_round_div_range : forall (z d : T) (n : Z),
-    nleb (nofZ 0) z = true -> nltb (nofZ 0) d = true -> nleb z (nmul d (nofZ n)) = true ->
+    cells_ok n -> nleb (nofZ 0) z = true -> nltb (nofZ 0) d = true -> nleb z (nmul d (nofZ n)) = true ->
     0 <= ntrunc (nround (ndiv z d)) <= n }.
+#[global] Existing Instance trunc_div_law.
 
 (* ------------------------------------------------------------------------------------------ *)
 (* an obligation walker with one invariant per state type                                       *)
 (* ------------------------------------------------------------------------------------------ *)
 (* `kinv A` / `linv S` (Ltac functions returning a predicate) give the invariant assumed of the argument of a let-bound
    continuation of type A -> bool / of a loop state of type S; when `kinv` fails the continuation is inlined.
+   `post x Hx v` decides what is remembered of an ordinary binding x := v (Hx : x = v),
    `unfh H` unfolds an invariant hypothesis, `isolve` proves an invariant of a state expression, `istep s` proves the
    invariant of `body i s` from the invariant of s. *)
 Lemma andb_intro2 (a b : bool) : a = true -> b = true -> a && b = true.
 Proof. intros -> ->. reflexivity. Qed.
+
+Ltac conj_step :=
+  lazymatch goal with |- andb ?a ?b = true => refine (andb_intro2 a b _ _) end.
 
 Ltac triv_k :=
   lazymatch goal with
@@ -67,10 +78,10 @@ Ltac let_post2 x Hx v :=
   | _ => clear Hx
   end.
 
-Ltac okw kinv linv unfh isolve istep leaf :=
+Ltac okw kinv linv post unfh isolve istep leaf :=
   lazymatch goal with
   | |- true = true => reflexivity
-  | |- andb ?a ?b = true => refine (andb_intro2 a b _ _); okw kinv linv unfh isolve istep leaf
+  | |- andb _ _ = true => conj_step; okw kinv linv post unfh isolve istep leaf
   | |- (let x := ?v in @?F x) = true =>
       let tv := type of v in
       lazymatch tv with
@@ -79,22 +90,23 @@ Ltac okw kinv linv unfh isolve istep leaf :=
           tryif (assert (Ht : forall u, v u = true) by (intro; cbv beta; triv_k))
           then (refine (let_fun_true v F Ht _); clear Ht;
                 let k := fresh "k" in let Hk := fresh "Hk" in
-                intros k Hk; cbv beta; okw kinv linv unfh isolve istep leaf)
+                intros k Hk; cbv beta; okw kinv linv post unfh isolve istep leaf)
           else tryif (let P := kinv A in idtac)
           then (let P := kinv A in
                 refine (let_fun_true_pre P v F _ _);
                 [ let u := fresh "u" in let Hu := fresh "Hu" in
-                  intros u Hu; unfh Hu; norm_hyps; cbv beta; okw kinv linv unfh isolve istep leaf
+                  intros u Hu; unfh Hu; norm_hyps; cbv beta; okw kinv linv post unfh isolve istep leaf
                 | let k := fresh "k" in let Hk := fresh "Hk" in
-                  intros k Hk; cbv beta; okw kinv linv unfh isolve istep leaf ])
+                  intros k Hk; cbv beta; okw kinv linv post unfh isolve istep leaf ])
           else (let G := eval cbv beta in (F v) in change (G = true);
-                okw kinv linv unfh isolve istep leaf)
+                okw kinv linv post unfh isolve istep leaf)
       | _ =>
           lazymatch v with
           | fst _ => let v' := eval cbn beta iota delta [fst snd] in v in
                      let G := eval cbv beta in (F v') in change (G = true)
           | snd _ => let v' := eval cbn beta iota delta [fst snd] in v in
                      let G := eval cbv beta in (F v') in change (G = true)
+          | pair _ _ => let G := eval cbv beta in (F v) in change (G = true)
           | for_list _ _ ?st =>
               let x := fresh "x" in let Hx := fresh "Hx" in
               refine (let_eq_true v F _); intros x Hx; cbv beta;
@@ -104,21 +116,21 @@ Ltac okw kinv linv unfh isolve istep leaf :=
               assert (Sx : Pinv x) by (rewrite Hx; isolve); clear Hx; unfh Sx; norm_hyps
           | _ =>
               let x := fresh "x" in let Hx := fresh "Hx" in
-              refine (let_eq_true v F _); intros x Hx; cbv beta; let_post2 x Hx v
+              refine (let_eq_true v F _); intros x Hx; cbv beta; post x Hx v
           end;
-          okw kinv linv unfh isolve istep leaf
+          okw kinv linv post unfh isolve istep leaf
       end
   | |- (if ?c then ?a else ?b) = true =>
       let c' := eval cbn [andb negb orb] in c in
       lazymatch c' with
-      | true => change (a = true); okw kinv linv unfh isolve istep leaf
-      | false => change (b = true); okw kinv linv unfh isolve istep leaf
+      | true => change (a = true); okw kinv linv post unfh isolve istep leaf
+      | false => change (b = true); okw kinv linv post unfh isolve istep leaf
       | context [Z.eqb ?p ?q] =>
           let E := fresh "E" in
           destruct (Z.eqb p q) eqn:E; [ apply Z.eqb_eq in E | apply Z.eqb_neq in E ];
           use_imps; norm_hyps;
-          okw kinv linv unfh isolve istep leaf
-      | _ => let E := fresh "E" in destruct c eqn:E; bool_hyps_ns; okw kinv linv unfh isolve istep leaf
+          okw kinv linv post unfh isolve istep leaf
+      | _ => let E := fresh "E" in destruct c eqn:E; bool_hyps_ns; okw kinv linv post unfh isolve istep leaf
       end
   | |- for_list_ok _ _ _ ?st = true =>
       let S := type of st in
@@ -127,11 +139,11 @@ Ltac okw kinv linv unfh isolve istep leaf :=
       apply (for_list_ok_inv Pinv);
       [ isolve
       | intros ? s Hi Hs; split;
-        [ istep s | unfh Hs; norm_hyps; cbv beta; okw kinv linv unfh isolve istep leaf ] ]
+        [ istep s | unfh Hs; norm_hyps; cbv beta; okw kinv linv post unfh isolve istep leaf ] ]
   | |- obD false _ = true => reflexivity
   | Hk : forall u, ?k u = true |- ?k _ = true => apply Hk
   | Hk : forall u, _ -> ?k u = true |- ?k _ = true => apply Hk; isolve
-  | |- (fun _ => _) _ = true => cbv beta; okw kinv linv unfh isolve istep leaf
+  | |- (fun _ => _) _ = true => cbv beta; okw kinv linv post unfh isolve istep leaf
   | |- _ => leaf
   end.
 
@@ -158,18 +170,19 @@ Proof.
   rewrite (sig_shape _ _ A), (sig_shape _ _ B), (sig_shape _ _ C). auto.
 Qed.
 
+Ltac clear_all := repeat match goal with Hq : _ |- _ => clear Hq end.
 Ltac unfh2 H := unfold inv3, inv2, invg, invs in H; cbn [fst snd] in H.
 Ltac isolve2 :=
   cbv beta;
   lazymatch goal with
   | |- inv3 _ _ _ (for_list ?l ?b ?st) =>
-      apply (keeps_inv3 _ _ _ st); [ apply for_list_keeps; intros ? ? _; uwalk ltac:(idtac) | isolve2 ]
+      apply (keeps_inv3 _ _ _ st); [ clear_all; apply for_list_keeps; intros ? ? _; uwalk ltac:(idtac) | isolve2 ]
   | |- _ =>
       unfold inv3, inv2, invg, invs; cbn [fst snd];
-      repeat split; first [ assumption | intros _; assumption | intros E; discriminate E ]
+      repeat split; first [ assumption | intros _; assumption | let E := fresh "E" in intros E; discriminate E ]
   end.
 Ltac istep2 s :=
-  cbv beta; apply (keeps_inv3 _ _ _ s); [ uwalk ltac:(idtac) | assumption ].
+  cbv beta; apply (keeps_inv3 _ _ _ s); [ clear_all; uwalk ltac:(idtac) | assumption ].
 
 Ltac leaf2 :=
   first [ apply t_anad_ok_true | apply t_ana_ok_true | apply delta_ok_true
@@ -192,14 +205,253 @@ Proof.
                        | arr T => constr:(invg NZ NX true)
                        end)
         ltac:(fun S => constr:(inv3 NZ NX true))
-        unfh2 isolve2 istep2 leaf2.
+        let_post2 unfh2 isolve2 istep2 leaf2.
   - okw ltac:(fun A => lazymatch A with
                        | (arr T * arr Z)%type => constr:(inv2 NZ NX false)
                        | arr Z => constr:(invs NZ NX false)
                        | arr T => constr:(invg NZ NX false)
                        end)
         ltac:(fun S => constr:(inv3 NZ NX false))
-        unfh2 isolve2 istep2 leaf2.
+        let_post2 unfh2 isolve2 istep2 leaf2.
 Qed.
 
 End P2ok.
+
+(* ------------------------------------------------------------------------------------------ *)
+(* the solver                                                                                   *)
+(* ------------------------------------------------------------------------------------------ *)
+Local Strategy 1000 [fteik2d_p1 fteik2d_p2 fteik2d_p1_ok fteik2d_p2_ok sweep2d sweep2d_ok].
+
+Section Main.
+Context {T : Type} `{Num T}.
+
+(* ---------- fteik2d_p1: straight-line code ---------- *)
+Lemma fteik2d_p1_char (dx dz : T) grad nx nz (slow : arr T) (xsrc zsrc : T) :
+  let zsi := Z.min (ntrunc (ndiv zsrc dz)) (nz - 1) in
+  let xsi := Z.min (ntrunc (ndiv xsrc dx)) (nx - 1) in
+  exists iflag zsa xsa,
+    fteik2d_p1 dx dz grad nx nz slow xsrc zsrc =
+      (iflag, nx + 1, nz + 1, full [nz + 1; nx + 1] Big,
+       (if grad then full [nz + 1; nx + 1; 2] (nofZ 0) else full [0; 0; 0] (nofZ 0)),
+       (if grad then full [nz + 1; nx + 1; 2] 0 else full [0; 0; 0] 0),
+       get (nofZ 0) slow [zsi; xsi], xsa, xsi, zsa, zsi) /\
+    (iflag <> 2 -> zsa = nround (ndiv zsrc dz) /\ xsa = nround (ndiv xsrc dx)).
+Proof.
+  intros zsi xsi. unfold fteik2d_p1. cbv zeta. fold zsi xsi.
+  destruct grad; cbn [fst snd];
+  repeat match goal with |- context [if ?c then _ else _] => destruct c end; cbn [fst snd];
+  do 3 eexists; (split; [ reflexivity | intros N; first [ exfalso; apply N; reflexivity | split; reflexivity ] ]).
+Qed.
+
+Theorem fteik2d_p1_ok_true (dx dz : T) grad nx nz (slow : arr T) (xsrc zsrc : T) :
+  shape slow = [nz; nx] ->
+  0 <= Z.min (ntrunc (ndiv zsrc dz)) (nz - 1) -> 0 <= Z.min (ntrunc (ndiv xsrc dx)) (nx - 1) ->
+  fteik2d_p1_ok true false dx dz grad nx nz slow xsrc zsrc = true.
+Proof.
+  intros Hs Hz Hx. cbv beta iota zeta delta [fteik2d_p1_ok obD obI].
+  rewrite (inb2_true slow nz nx _ _ Hs) by lia. cbn [andb fst snd].
+  destruct grad; repeat match goal with |- context [if ?c then _ else _] => destruct c end; reflexivity.
+Qed.
+
+(* the initialisation keeps the shape of the gradient array (that of the traveltime array: fteik2d_p2_sig) *)
+Definition tg_keeps (G0 : arr T) (r : arr T * arr T * arr Z) : Prop := sig (snd (fst r)) = sig G0.
+Lemma fteik2d_p2_gsig dx dz grad iflag nx nz slow (tt : arr T) G S vzero xsa xsi zsa zsi :
+  tg_keeps G (fteik2d_p2 dx dz grad iflag nx nz slow tt G S vzero xsa xsi zsa zsi).
+Proof.
+  cbv beta delta [fteik2d_p2].
+  lazymatch goal with |- tg_keeps ?t (let u := (if ?c then ?a else ?b) in _) =>
+    change (tg_keeps t (if c then a else b)); destruct c end.
+  - uwalk ltac:(unfold tg_keeps).
+  - uwalk ltac:(unfold tg_keeps).
+Qed.
+
+Context `{!TruncLaws T}.
+
+Theorem fteik2d_ok_true (slow : arr T) (dz dx zsrc xsrc : T) (nsweep : Z) (grad : bool) (nz nx : Z) :
+  shape slow = [nz; nx] -> 1 <= nz -> 1 <= nx -> cells_ok nz -> cells_ok nx ->
+  nltb (nofZ 0) dz = true -> nltb (nofZ 0) dx = true ->
+  fteik2d_ok true false slow dz dx zsrc xsrc nsweep grad = true.
+Proof.
+  intros Hs Hnz Hnx Cz Cx Hdz Hdx.
+  rewrite fteik2d_ok_tail. cbv beta zeta.
+  rewrite (dim_0 slow nz [nx] Hs), (dim_1 slow nz nx [] Hs). cbn [fst snd].
+  lazymatch goal with |- (if negb ?c then _ else _) = true => destruct c eqn:Hin end; [ | reflexivity ].
+  cbn [negb].
+  apply andb_true_iff in Hin. destruct Hin as [Hcz Hcx].
+  apply andb_true_iff in Hcz. destruct Hcz as [Hz0 Hz1].
+  apply andb_true_iff in Hcx. destruct Hcx as [Hx0 Hx1].
+  pose proof (trunc_div_nonneg zsrc dz Hz0 Hdz) as Tz.
+  pose proof (trunc_div_nonneg xsrc dx Hx0 Hdx) as Tx.
+  pose proof (trunc_round_div_range zsrc dz nz Cz Hz0 Hdz Hz1) as Rz.
+  pose proof (trunc_round_div_range xsrc dx nx Cx Hx0 Hdx Hx1) as Rx.
+  destruct (fteik2d_p1_char dx dz grad nx nz slow xsrc zsrc) as (iflag & zsa & xsa & E & Hfl).
+  cbv zeta in E.
+  set (zsi := Z.min (ntrunc (ndiv zsrc dz)) (nz - 1)) in *.
+  set (xsi := Z.min (ntrunc (ndiv xsrc dx)) (nx - 1)) in *.
+  assert (Bz : 0 <= zsi <= nz - 1) by (unfold zsi; lia).
+  assert (Bx : 0 <= xsi <= nx - 1) by (unfold xsi; lia).
+  assert (Hslow' : shape slow = [nz + 1 - 1; nx + 1 - 1])
+    by (rewrite Hs; f_equal; [ lia | f_equal; lia ]).
+  apply andb_intro2; [ apply fteik2d_p1_ok_true; [ exact Hs | apply Bz | apply Bx ] | ].
+  rewrite E. cbn [fst snd].
+  set (G1 := if grad then full [nz + 1; nx + 1; 2] (nofZ 0) else full [0; 0; 0] (nofZ 0)).
+  set (S1 := if grad then full [nz + 1; nx + 1; 2] 0 else full [0; 0; 0] 0).
+  set (tt1 := full [nz + 1; nx + 1] Big).
+  set (vz := get (nofZ 0) slow [zsi; xsi]).
+  apply andb_intro2.
+  - apply fteik2d_p2_ok_true; try lia; try assumption.
+    + reflexivity.
+    + intros ->. split; reflexivity.
+    + intros N. destruct (Hfl N) as [-> ->]. lia.
+  - set (P2 := fteik2d_p2 dx dz grad iflag (nx + 1) (nz + 1) slow tt1 G1 S1 vz xsa xsi zsa zsi).
+    apply tail_ok_true; try lia; try assumption.
+    + pose proof (fteik2d_p2_sig dx dz grad iflag (nx + 1) (nz + 1) slow tt1 G1 S1 vz xsa xsi zsa zsi) as K.
+      unfold tt_keeps in K. fold P2 in K. apply sig_shape in K. rewrite K. reflexivity.
+    + intros ->. split.
+      * apply init_preserves_sgn_inv; try lia. apply sgn_inv_zeros; lia.
+      * pose proof (fteik2d_p2_gsig dx dz true iflag (nx + 1) (nz + 1) slow tt1 G1 S1 vz xsa xsi zsa zsi) as K.
+        unfold tg_keeps in K. fold P2 in K. apply sig_shape in K. rewrite K. reflexivity.
+Qed.
+End Main.
+
+(* ------------------------------------------------------------------------------------------ *)
+(* the laws for exact real arithmetic                                                           *)
+(* ------------------------------------------------------------------------------------------ *)
+Lemma Int_part_spec (x : R) (k : Z) : (IZR k <= x < IZR k + 1)%R -> Int_part x = k.
+Proof.
+  intros [H1 H2]. destruct (base_Int_part x) as [B1 B2].
+  assert (A1 : (IZR (Int_part x) < IZR (k + 1))%R) by (rewrite plus_IZR; lra).
+  assert (A2 : (IZR k < IZR (Int_part x + 1))%R) by (rewrite plus_IZR; lra).
+  apply lt_IZR in A1, A2. lia.
+Qed.
+Lemma Int_part_nonneg (x : R) : (0 <= x)%R -> 0 <= Int_part x.
+Proof.
+  intros Hx. destruct (base_Int_part x) as [B1 B2].
+  assert (A : (IZR (-1) < IZR (Int_part x))%R) by (simpl; lra).
+  apply lt_IZR in A. lia.
+Qed.
+Lemma Int_part_le (x : R) (n : Z) : (x <= IZR n)%R -> Int_part x <= n.
+Proof.
+  intros Hx. destruct (base_Int_part x) as [B1 B2].
+  assert (A : (IZR (Int_part x) < IZR (n + 1))%R) by (rewrite plus_IZR; lra).
+  apply lt_IZR in A. lia.
+Qed.
+Lemma Rtrunc_IZR (k : Z) : 0 <= k -> Rtrunc (IZR k) = k.
+Proof.
+  intros Hk. unfold Rtrunc. destruct (Rle_dec 0 (IZR k)) as [_ | N].
+  - apply Int_part_spec. lra.
+  - exfalso. apply N. apply IZR_le in Hk. exact Hk.
+Qed.
+(* np.round of a real in [0, n] is an integer in [0, n] *)
+Lemma Rround_range (x : R) (n : Z) : (0 <= x <= IZR n)%R -> exists m, Rround x = IZR m /\ 0 <= m <= n.
+Proof.
+  intros [H0 Hn]. unfold Rround.
+  pose proof (Int_part_nonneg x H0) as F0. pose proof (Int_part_le x n Hn) as Fn.
+  destruct (base_Int_part x) as [B1 B2].
+  set (f := Int_part x) in *.
+  assert (Hlt : (1 / 2 <= x - IZR f)%R -> f + 1 <= n).
+  { intros Hr. assert (A : (IZR f < IZR n)%R) by lra. apply lt_IZR in A. lia. }
+  destruct (Rlt_dec (x - IZR f) (1 / 2)) as [L | L]; [ exists f; split; [ reflexivity | lia ] | ].
+  destruct (Rlt_dec (1 / 2) (x - IZR f)) as [G | G]; [ exists (f + 1); split; [ reflexivity | ]; split; [ lia | apply Hlt; lra ] | ].
+  destruct (Z.even f); [ exists f; split; [ reflexivity | lia ] | exists (f + 1); split; [ reflexivity | ] ].
+  split; [ lia | apply Hlt; lra ].
+Qed.
+
+Lemma trunc_div_nonneg_R (z d : R) : Rleb 0 z = true -> Rltb 0 d = true -> 0 <= Rtrunc (z / d).
+Proof.
+  intros Hz Hd. apply Rleb_true in Hz. apply Rltb_true in Hd.
+  assert (Hq : (0 <= z / d)%R) by (apply Rle_mult_inv_pos; assumption).
+  unfold Rtrunc. destruct (Rle_dec 0 (z / d)) as [_ | N]; [ | contradiction ].
+  apply Int_part_nonneg. exact Hq.
+Qed.
+Lemma trunc_round_div_range_R (z d : R) (n : Z) :
+  Rleb 0 z = true -> Rltb 0 d = true -> Rleb z (d * IZR n) = true -> 0 <= Rtrunc (Rround (z / d)) <= n.
+Proof.
+  intros Hz Hd Hn. apply Rleb_true in Hz, Hn. apply Rltb_true in Hd.
+  assert (Hq : (0 <= z / d)%R) by (apply Rle_mult_inv_pos; assumption).
+  assert (Hq' : (z / d <= IZR n)%R).
+  { apply Rmult_le_reg_r with d; [ exact Hd | ]. unfold Rdiv. rewrite Rmult_assoc, Rinv_l by lra. lra. }
+  destruct (Rround_range (z / d) n (conj Hq Hq')) as (m & -> & Hm).
+  rewrite Rtrunc_IZR by lia. exact Hm.
+Qed.
+
+#[global] Instance TruncDivLawR : @TruncDivLaw R NumR := @Build_TruncDivLaw R NumR trunc_div_nonneg_R.
+#[global] Instance TruncLawsR : @TruncLaws R NumR :=
+  @Build_TruncLaws R NumR TruncDivLawR (fun _ => True) (fun z d n _ => trunc_round_div_range_R z d n).
+
+(* the theorem at the reals *)
+Corollary fteik2d_ok_true_R (slow : arr R) (dz dx zsrc xsrc : R) (nsweep : Z) (grad : bool) (nz nx : Z) :
+  shape slow = [nz; nx] -> 1 <= nz -> 1 <= nx -> (0 < dz)%R -> (0 < dx)%R ->
+  fteik2d_ok true false slow dz dx zsrc xsrc nsweep grad = true.
+Proof.
+  intros Hs Hnz Hnx Hdz Hdx.
+  apply (@fteik2d_ok_true R NumR TruncLawsR slow dz dx zsrc xsrc nsweep grad nz nx Hs Hnz Hnx);
+    first [ exact I | apply Rltb_true; assumption ].
+Qed.
+
+(* ------------------------------------------------------------------------------------------ *)
+(* binary64                                                                                     *)
+(* ------------------------------------------------------------------------------------------ *)
+(* TruncDivLaw holds for binary64, NaN and infinities included: a quotient of a non-negative by a positive float is
+   never a negative finite number.  The second law of TruncLaws is not proved for binary64 (it needs the error analysis
+   of z <= fl(d * n) -> fl(z / d) <= n, then np.round and int on an integer-valued float); it is false without a
+   bound on n, as the example shows. *)
+From Coq Require Import PrimFloat FloatOps FloatAxioms SpecFloat.
+
+Definition sf_nonneg (x : spec_float) : Prop := match x with S754_finite true _ _ => False | _ => True end.
+
+Lemma f_trunc_nonneg (x : float) : sf_nonneg (Prim2SF x) -> 0 <= f_trunc x.
+Proof.
+  unfold f_trunc. destruct (Prim2SF x) as [s | s | | s m e]; cbn [sf_nonneg]; try lia.
+  destruct s; [ contradiction | intros _ ].
+  destruct (0 <=? e) eqn:E.
+  - apply Z.leb_le in E. apply Z.mul_nonneg_nonneg; [ lia | apply Z.pow_nonneg; lia ].
+  - apply Z.leb_gt in E. apply Z.div_pos; [ lia | apply Z.pow_pos_nonneg; lia ].
+Qed.
+
+Lemma binary_round_aux_nonneg mx ex lx : sf_nonneg (binary_round_aux prec emax false mx ex lx).
+Proof.
+  unfold binary_round_aux.
+  destruct (shr_fexp prec emax mx ex lx) as [mrs' e'].
+  destruct (shr_fexp prec emax (round_nearest_even (shr_m mrs') (loc_of_shr_record mrs')) e' loc_Exact) as [mrs'' e''].
+  destruct (shr_m mrs''); [ exact I | destruct (Zle_bool e'' (emax - prec)); exact I | exact I ].
+Qed.
+
+Lemma SFdiv_nonneg (x y : spec_float) :
+  SFleb (S754_zero false) x = true -> SFltb (S754_zero false) y = true -> sf_nonneg (SFdiv prec emax x y).
+Proof.
+  destruct x as [sx | sx | | sx mx ex], y as [sy | sy | | sy my ey];
+    cbn [SFleb SFltb SFcompare]; try discriminate;
+    try destruct sx; try destruct sy; try discriminate; intros _ _; try exact I.
+  cbn [SFdiv xorb].
+  destruct (SFdiv_core_binary prec emax (Z.pos mx) ex (Z.pos my) ey) as [[mz ez] lz].
+  apply binary_round_aux_nonneg.
+Qed.
+
+Lemma trunc_div_nonneg_F (z d : float) :
+  PrimFloat.leb (f_ofZ 0) z = true -> PrimFloat.ltb (f_ofZ 0) d = true -> 0 <= f_trunc (PrimFloat.div z d).
+Proof.
+  change (f_ofZ 0) with 0%float. rewrite leb_spec, ltb_spec.
+  change (Prim2SF 0%float) with (S754_zero false). intros Hz Hd.
+  apply f_trunc_nonneg. rewrite div_spec. apply SFdiv_nonneg; assumption.
+Qed.
+
+#[global] Instance TruncDivLawF : @TruncDivLaw float NumF := @Build_TruncDivLaw float NumF trunc_div_nonneg_F.
+
+(* without a bound on the cell count the second law fails for binary64: n = 2^53 + 3 is not a float, nofZ n rounds
+   to 2^53 + 4, and the source z = 2^53 + 4 (spacing 1) passes the domain test but gives the node index n + 1 *)
+Lemma trunc_round_div_range_F_needs_bound :
+  exists (z d : float) (n : Z),
+    nleb (nofZ 0) z = true /\ nltb (nofZ 0) d = true /\ nleb z (nmul d (nofZ n)) = true /\
+    n < ntrunc (nround (ndiv z d)).
+Proof.
+  exists (f_ofZ (2 ^ 53 + 4)), (f_ofZ 1), (2 ^ 53 + 3). vm_compute. repeat split; reflexivity.
+Qed.
+
+Print Assumptions fteik2d_p1_ok_true.
+Print Assumptions fteik2d_p2_ok_true.
+Print Assumptions fteik2d_ok_true.
+Print Assumptions TruncLawsR.
+Print Assumptions fteik2d_ok_true_R.
+Print Assumptions TruncDivLawF.
+Print Assumptions trunc_round_div_range_F_needs_bound.
